@@ -846,6 +846,32 @@ def opSMEmpty (a : List String) : M String :=
      | _, _ => some "bad-op")
   | _ => some "bad-op"
 
+/-- `empt KIND HEX nil|empty`: a decoded one-signature structure whose signature was emptied -/
+def opEmpt (a : List String) : M String :=
+  match a with
+  | kind :: hexs :: how :: _ =>
+    (match unhexArg hexs with
+     | some (some data) =>
+       let e : Option Bytes := if how = "nil" then none else some []
+       let fin (o : Out Bytes) : M String :=
+         match o with
+         | .ok enc => some ("dec=ok enc=" ++ hexOfBytes enc ++ " empty-signature-emitted")
+         | .err _ => some "dec=ok enc=err"
+         | .panic => some "panic"
+         | .unmodelled => none
+       (match kind with
+        | "s1" | "s1u" =>
+          (match Sign1.unmarshal (kind == "s1") data with
+           | .ok m => fin (Sign1.marshal (kind == "s1") { m with sig := e })
+           | .err _ => some "dec=err" | .panic => some "panic" | .unmodelled => none)
+        | "sig" | "csig" =>
+          (match Signature.unmarshal data with
+           | .ok s => fin (Signature.marshal { s with sig := e })
+           | .err _ => some "dec=err" | .panic => some "panic" | .unmodelled => none)
+        | _ => some "bad-op")
+     | _ => some "bad-op")
+  | _ => some "bad-op"
+
 /-! ### dispatch -/
 
 def runLine (line : String) : String :=
@@ -884,6 +910,7 @@ def runLine (line : String) : String :=
     | "resign" :: a => opResign a
     | "vtwice" :: a => opVTwice a
     | "smempty" :: a => opSMEmpty a
+    | "empt" :: a => opEmpt a
     | _ => some "bad-op"
   match r with
   | some s => s
